@@ -221,13 +221,23 @@ func c04RunInBubble(cs c04Case, res *c04Result) {
 	f := cs.Fault
 	ctx, cancel := context.WithTimeout(context.Background(), 30*time.Second)
 	defer cancel()
-	var closeOnce [2]sync.Once
+	var closeMu sync.Mutex
+	var closeClaimed [2]bool
+	claimClose := func(i int) bool { // true for exactly one caller per host; never blocks
+		closeMu.Lock()
+		defer closeMu.Unlock()
+		if closeClaimed[i] {
+			return false
+		}
+		closeClaimed[i] = true
+		return true
+	}
 	closeHostAsync := func(i int, why string) {
-		closeOnce[i].Do(func() {
+		if claimClose(i) {
 			h.Trace("host %s Close() issued (%s)", nodes[i].side.Name, why)
 			n := nodes[i]
 			go func() { h.Trace("host %s Close() returned: %v", n.side.Name, n.h.Close()) }()
-		})
+		}
 	}
 	switch f.Kind {
 	case "gater":
@@ -261,7 +271,12 @@ func c04RunInBubble(cs c04Case, res *c04Result) {
 		case "hostclose":
 			end.SetOnOp(func(op memnet.Op) {
 				if op.Index == f.K {
-					h.MarkFired()
+					closeMu.Lock()
+					already := closeClaimed[idx(f.Side)]
+					closeMu.Unlock()
+					if !already {
+						h.MarkFired()
+					}
 					closeHostAsync(idx(f.Side), fmt.Sprintf("fault at %s op %d", f.Side, f.K))
 				}
 			})
@@ -357,9 +372,9 @@ func c04RunInBubble(cs c04Case, res *c04Result) {
 	// ----- close both hosts -----
 	for i, n := range nodes {
 		node := n
-		closeOnce[i].Do(func() {
+		if claimClose(i) {
 			h.Step("close host "+node.side.Name, func() { h.Trace("host %s Close(): %v", node.side.Name, node.h.Close()) })
-		})
+		}
 	}
 	cancel()
 	time.Sleep(memtpt.Settle)
